@@ -147,6 +147,11 @@ func c07Run(c *core.Ctx, i int) {
 		pat := runPattern(i, maxLen)
 		src, origin = patternSource(pat), "run-pattern"
 		c.Cover("pattern-length", fmt.Sprint(len(pat)))
+	} else if (i-np)%40 == 17 {
+		// blocks whose body is nothing but blank lines (the one way to write an empty block), in every block kind
+		k := ((i - np) / 40) % len(c07BlankBlocks)
+		src, origin = c07BlankBlocks[k], "deep-nesting"
+		c.Cover("blank-only-block", fmt.Sprint(k))
 	} else if (i-np)%40 == 7 {
 		depth := 1 + ((i-np)/40)%16
 		src, origin = deepSource(c.Rng, depth), "deep-nesting"
@@ -156,6 +161,12 @@ func c07Run(c *core.Ctx, i int) {
 	}
 	c.Cover("origin", origin)
 	c07One(c, src, origin, i)
+}
+
+var c07BlankBlocks = []string{
+	"if true\n\nend\n", "if true\n\n\n\nend\nprint 1\n", "func nop\n\nend\nnop\n", "while false\n\nend\n", "for range 2\n\nend\n", "if true\n    print 1\nelse\n\nend\n",
+	"if false\n\nelse if true\n\nelse\n\nend\n", "on key\n\nend\n", "for i := range 2\n    if i > 0\n\n    end\n    print i\nend\n", "func f:num\n    if true\n\n    end\n    return 1\nend\nprint (f)\n",
+	"if true\n    // only a comment\nend\n", "while false\n    \n\t\nend\n", "if true\n\n    print 1\n\nend\n", "func g\n\n    print 2\n\n\nend\ng\n",
 }
 
 func c07One(c *core.Ctx, src, origin string, i int) {
@@ -247,6 +258,19 @@ func c07CLI(c *core.Ctx, src, f string) {
 	}
 	if code != 0 {
 		c.Violation("check-rejects-formatted", fmt.Sprintf("evy fmt -c exits %d (%s) on the formatter's own output", code, firstN(errOut, 200)), f, nil)
+	}
+	// stdin to stdout without flags: the formatted text, whether or not the input already is formatted
+	for _, in := range []string{f, src} {
+		out, errOut, code, err := evyCmd(c, in, "fmt")
+		if err != nil {
+			c.Inconclusive("evy fmt (stdin): " + err.Error())
+			return
+		}
+		c.Event("cli_stdin_runs", 1)
+		if code != 0 || out != f {
+			c.Violation("stdin-mode-output", fmt.Sprintf("evy fmt reading stdin (already formatted: %v): exit %d (%s), wrote %d bytes, the formatted text has %d: %s", in == f, code, firstN(errOut, 100), len(out), len(f), firstDiff(f, out)), in, nil)
+			break
+		}
 	}
 	path := filepath.Join(c.Tmp, "c07.evy")
 	for _, tc := range []struct {
